@@ -68,7 +68,7 @@ func genPath(r *vlib.Rng) string {
 }
 
 var bases = []string{"", "/", "/api", "/api/v1/", "/api/v1", "/a", "//api", "/api//v1", "/x y/z", "/api/v1/deep/er"}
-var queries = []string{"", "x=1", "a=1&b=2", "q=%2e%2e%2f", "a=b=c&&", "x=1#frag", "%zz", "q=a b", "?", "a=1;b=2", "é=1", "p=/../x", "a=%23"}
+var queries = []string{"", "api_key=sk-live-123&x=1", "access_token=abc.def&password=hunter2", "token=t&key=k&secret=s&auth=a", "API_KEY=UP&client_secret=cs", "x=1", "a=1&b=2", "q=%2e%2e%2f", "a=b=c&&", "x=1#frag", "%zz", "q=a b", "?", "a=1;b=2", "é=1", "p=/../x", "a=%23"}
 
 type epDesc struct {
 	Scheme   string `json:"scheme"`
@@ -589,6 +589,10 @@ func stackPart(c *vlib.Cases, r *vlib.Rng, thorough bool) {
 			stackCaseH(c, engine, cf.base, cf.preserve, "/olla/proxy/", "v1/embeddings?h=1", false, true, s, b, decoy)
 			stackCaseH(c, engine, cf.base, cf.preserve, "/olla/openai/", "v1/embeddings", false, true, s, b, decoy)
 			stackCase(c, engine, cf.base, cf.preserve, "/olla/proxy/", "v1/x?a=1", true, s, b, decoy)
+			// query parameters whose names look like credentials travel like any other (verbatim)
+			for _, q := range []string{"api_key=sk-live-123&x=1", "access_token=abc.def&password=hunter2", "token=t&key=k&secret=s&auth_token=a&apikey=z", "API_KEY=UP&client_secret=cs&x-api-key=y", "api%5Fkey=enc"} {
+				stackCase(c, engine, cf.base, cf.preserve, "/olla/proxy/", "v1/chat/completions?"+q, false, s, b, decoy)
+			}
 			for i, t := range tails {
 				rp := "/olla/proxy/"
 				if i%3 == 1 {
